@@ -3,7 +3,8 @@ HERE = os.path.dirname(os.path.abspath(__file__))
 sys.path.insert(0, HERE)
 from extract import Source
 import units
-src = Source('/verif/.cache/expanded.rs')
+import subprocess
+src = Source(subprocess.check_output(['/verif/tools/expand.sh']).decode().strip().splitlines()[-1])
 for u in units.UNITS[sys.argv[1]](src, *(sys.argv[2:3])):
     text = u.emit()
     os.makedirs('/verif/.cache/units', exist_ok=True)
